@@ -16,7 +16,17 @@ fixed = '| property | finding | commit | what failed |\n|---|---|---|---|\n' + \
     '\n'.join('| %s | %s | %s | %s |' % (k['property'], k['id'], k.get('commit', ''), esc(k['what'][:230])) for k in kf if k['status'] == 'fixed') + '\n'
 openf = '| property | finding | class | what fails |\n|---|---|---|---|\n' + \
     '\n'.join('| %s | %s | `%s` | %s |' % (k['property'], k['id'], k['class'], esc(k['what'][:260])) for k in kf if k['status'] == 'open') + '\n'
-for tag, txt in (('INVENTORY', inv), ('FIXED', fixed), ('OPEN', openf)):
+NOTES = json.load(open(os.path.join(V, 'seeded', 'strengthening_notes.json')))
+seeds = '| seed | change | needs to manifest | first run (quick) | current checks (quick) | strengthening it led to |\n|---|---|---|---|---|---|\n'
+def fmt(r):
+    if not r: return '—'
+    if r.get('violations', 0) == 0: return '**missed**'
+    return 'caught with failing input' if r.get('with_input', 0) else 'caught, `no-failing-input-found`'
+for m in sorted(glob.glob(os.path.join(V, 'seeded', 'seed-*', 'meta.json'))):
+    x = json.load(open(m)); sid = x['seed_id']
+    seeds += '| %s | %s | %s | %s | %s | %s |\n' % (sid, esc(x.get('summary', ''))[:200], esc(x.get('what_it_needs_to_manifest', ''))[:220],
+        fmt(x.get('detection', {}).get('quick')), fmt(x.get('detection_latest')), esc(NOTES.get(sid, '—')))
+for tag, txt in (('INVENTORY', inv), ('FIXED', fixed), ('OPEN', openf), ('SEEDS', seeds)):
     d = re.sub(r'<!-- GEN:%s -->\n.*?<!-- /GEN:%s -->' % (tag, tag), '<!-- GEN:%s -->\n%s<!-- /GEN:%s -->' % (tag, txt.replace('\\', '\\\\'), tag), d, flags=re.S)
 total = sum(len(n) for _, n in rows)
 d = re.sub(r'\d+ property theorems in `coq/props', '%d property theorems in `coq/props' % total, d)
